@@ -17,7 +17,7 @@ from props.c02 import grl_ok
 ID = "C14"
 BUDGET = {"quick": 240, "thorough": 2400}
 RULE = (
-    "models from vlib.modelgen biased to conditionals, And/Or with 2-4 operands, Not, abs, floor, Mod, "
+    "models from vlib.modelgen biased to conditionals, And/Or with 2-4 operands (and wide ones with 5-9 operands decided by a single operand at a drawn position), Not, abs, floor, Mod, "
     "relational-as-number and ContinuousConditional, also in own-state position (so Rush-Larsen linearisations "
     "contain sign / piecewise derivatives) x N in 2..5 input columns drawn independently (so they fall on "
     "different sides of the model's conditions; the branch signature of every column is computed with the "
